@@ -200,6 +200,14 @@ func c07Eq(a, b any) bool {
 
 // c07Contains: every leaf of s is in a at the same path with the same value
 // (lists are leaves; an empty object is contained in any object).
+//
+// Note on nulls: when a server-side apply removes the last entry a manager
+// owned in a map, structured-merge-diff leaves null in place of the map
+// (typed/remove.go, removingWalker.doMap). That is Kubernetes behaviour, not the
+// syncer's; the oracle therefore reads null, an absent member and an empty
+// object as the same thing, and the generator never draws an empty matchLabels
+// (the XR CRD requires matchLabels to be an object, so a real server would
+// refuse the apply that nulls it).
 func c07Contains(a, s any) bool {
 	sm, ok := s.(map[string]any)
 	if !ok {
